@@ -15,7 +15,10 @@ from ..universe import cycles, prelude
 
 ID = "C07"
 NMAX = {"quick": 2, "thorough": 3}
-DEPTHS = {"quick": list(range(0, 13)), "thorough": list(range(0, 13)) + [25, 50, 100, 150]}
+# depths above 50 are not judged: on CPython 3.12 the interpreter's C-level recursion budget (not adjustable through
+# sys.setrecursionlimit) is exhausted between depth 100 and 150 for topologies with several nested calls per level, and inside a
+# union the resulting RecursionError is an ordinary member failure ("no member accepts") - an interpreter limit, not a library property
+DEPTHS = {"quick": list(range(0, 13)), "thorough": list(range(0, 13)) + [25, 50]}
 STEP = 12
 BUILD_LIMIT = 5.0
 MAXTASKS = 8
@@ -47,7 +50,7 @@ def meta(tier):
         "oracle: build within the wall limit; unmarshal(T, wire) same-as the value built directly with the classes; marshal gives the all-plain wire; "
         "round trip; both build orders agree; non-trivial = the call returned; distinct by (topology, style, root, depth, outcome)",
         "bounds": {"classes": NMAX[tier], "depths": DEPTHS[tier]},
-        "assumptions": ["cold state per program", "thorough tier: sys.setrecursionlimit(5000) (the library needs up to ~10 frames per level, depth 150 does not fit under 1000)"],
+        "assumptions": ["cold state per program", "thorough tier: sys.setrecursionlimit(5000) (the library needs up to ~10 Python frames per level); depths above 50 are not judged (CPython's C recursion budget, see DEPTHS)"],
         "exhaustive": True,
     }
 
